@@ -263,6 +263,19 @@ func init() {
 		}
 		return c09SetsOverRuns(nreps, strings.Join(items, " "), true)
 	})
+
+	// case: "<nreps> <expected answer sets, for the reference side only> <srv.script case>": references / rename of a global in
+	// a workspace with more files than the reference search has workers (runtime.NumCPU()+2; the generator sizes the
+	// workspace by the affinity mask, which is what NumCPU reports). One fresh process per run, GOMAXPROCS unset / 2 / 1 in
+	// turn. Observable: per query step the SET of answers over the runs.
+	register("c09.manyrefs", func(line string) string {
+		f := strings.SplitN(line, " ", 3)
+		if len(f) < 3 {
+			return "BAD-CASE"
+		}
+		nreps, _ := strconv.Atoi(f[0])
+		return c09SetsOverRuns(nreps, f[2], true)
+	})
 }
 
 // the scripted session (leg srv.script: one fresh server process per run) nreps times; per query step the set of answers
